@@ -9,7 +9,8 @@ RULE = ("Generated reader/updater programs (memb, mb, bp; threads that both read
         "synchronize_rcu, registration or application code; signals may nest (SA_NODEFER); a signal may also interrupt a blocking FUTEX_WAIT of the library (handler runs, wait returns EINTR). The handler performs rcu_read_lock, litmus and "
         "rcu_dereference reads, rcu_read_unlock. Oracles: rcu_read_ongoing() and the reader word identical before and after each handler; the "
         "C01 interval/litmus/shadow-heap oracles applied to handler sections and to interrupted sections; no deadlock/hang. Non-trivial: a "
-        "handler section ran after the signal landed inside a library primitive. distinct = distinct case text.")
+        "handler section ran after the signal landed inside a library primitive. One bp/memb case in four runs before the library's own constructor (cfg early: "
+        "the engine executes the case from an earlier constructor, so the first registration initialises the library - the documented early-registration path). distinct = distinct case text.")
 ASSUMPTIONS = G.E1_ASSUMPTIONS + [
     "signals are raised at scheduling points (before each shared-memory access / fence / wrapped call of the interrupted thread), not between arbitrary machine instructions",
     "memb/mb: the handler uses RCU only while the interrupted thread is registered (documented precondition)",
@@ -23,6 +24,8 @@ def example(draw, tier):
     prog, nops, nslots = gen.gp_program(draw, tier, flavor, dynamic=draw(st.booleans()))
     n = len(nops) - 1
     head = ["scen gp_" + flavor, "cfg membarrier %d" % memb, "cfg sigreads %d" % nslots]
+    if flavor in ("bp", "memb") and draw(st.integers(0, 3)) == 0:
+        head.append("cfg early 1")   # first use precedes the library's constructor (early registration path; bp: init/exit reference counting)
     out = []
     for _ in range(gen.BATCH):
         sched = gen.schedule_lines(draw, tier, len(nops), nops, sig_threads=list(range(1, n + 1)), sig_max=3,
